@@ -167,9 +167,11 @@ class Types:
         ps = f.params
         if not ps:
             return ANY
-        if ps[0].arg == name and f.cls is not None and f.parent is None and f.kind in ('method', 'property', 'setter'):
+        first_is_recv = ps[0].arg == name and f.cls is not None and f.parent is None and \
+            (ps[0].annotation is None or name in ('self', 'cls', 'mcs'))
+        if first_is_recv and f.kind in ('method', 'property', 'setter'):
             return ('inst', f.cls.qualname)
-        if ps[0].arg == name and f.cls is not None and f.parent is None and f.kind == 'classmethod':
+        if first_is_recv and f.kind == 'classmethod':
             return ('cls', f.cls.qualname)
         a = f.node.args
         if a.vararg is not None and a.vararg.arg == name:
